@@ -16,7 +16,7 @@
      coherent mklink S    no block of S sits under the link of a different block. *)
 Require Import IP.Base.Bytes IP.DM.Value IP.Xform.Transform IP.Xform.WalkT.
 Require Import IP.Proofs.XformBase IP.Proofs.XformFocus IP.Proofs.XformLaws IP.Proofs.XformRefute
-  IP.Proofs.XformExpand IP.Proofs.XformWalk.
+  IP.Proofs.XformExpand IP.Proofs.XformWalk IP.Proofs.XformSeg.
 
 (* The full statement, as a predicate over the quirk record: a completed transform returns the SPEC's
    tree, and where the SPEC defines a tree the transform does not panic. *)
@@ -142,6 +142,15 @@ Print Assumptions C16_negative_index_refuted.
 Print Assumptions C16_append_parents_refuted.
 Print Assumptions C16_null_root_refuted.
 Print Assumptions C16_delete_in_block_refuted.
+
+(* path segments stored as ints (datamodel.PathSegmentOfInt): the model takes a path as the list of
+   rendered segments ([render_path]); for an int-stored i >= 0 the index the model parses out of the
+   rendering is i, which is what PathSegment.Index() returns for it *)
+Theorem C16_int_segment :
+  forall i, (0 <= i < two63z)%Z ->
+    parse_int (dec_of_Z i) = Some i /\ list_seg (xseg_string (SegI i)) = LIdx i.
+Proof. exact (fun i H => conj (parse_int_dec i H) (xseg_int_is_index i H)). Qed.
+Print Assumptions C16_int_segment.
 
 (* the oracle's executable expansion satisfies the hypotheses of the theorems above *)
 Theorem C16_expansion_valid :
